@@ -17,7 +17,7 @@ out = {}
 st = subprocess.run(['git', '-C', '/repo', 'status', '--porcelain', '--untracked-files=no'], capture_output=True, text=True).stdout.strip()
 if st and not use_wt:
     print('refusing: /repo has local modifications'); sys.exit(2)
-for sid in sorted(x for x in os.listdir(os.path.join(VERIF, 'seeded')) if os.path.isdir(os.path.join(VERIF, 'seeded', x))):
+for sid in sorted(x for x in os.listdir(os.path.join(VERIF, 'seeded')) if os.path.exists(os.path.join(VERIF, 'seeded', x, 'meta.json'))):
     if ids and sid not in ids:
         continue
     d = os.path.join(VERIF, 'seeded', sid)
